@@ -8,6 +8,7 @@ use dns_types::protocol::types::*;
 
 use crate::context::Context;
 use crate::local::{resolve_local, LocalResolutionResult};
+use crate::recursive::{validate_nameserver_response, NameserverResponse};
 use crate::util::nameserver::*;
 use crate::util::types::*;
 
@@ -124,7 +125,17 @@ async fn resolve_forwarding_notimeout<'a>(
         tracing::trace!("nameserver HIT");
         // Propagate SOA RR for NXDOMAIN / NODATA responses
         let soa_rr = get_nxdomain_nodata_soa(question, &response, 0).cloned();
-        let mut rrs = response.answers;
+        // keep what answers the question - the aliases leading from the
+        // question name, in chain order, and the records at the end of the
+        // chain - as the recursive resolver does with the replies it gets:
+        // the order of an answer section is not promised, and other records
+        // in it are not an answer to this question
+        let mut rrs = match validate_nameserver_response(question, &response, 0) {
+            Some(
+                NameserverResponse::Answer { rrs, .. } | NameserverResponse::CNAME { rrs, .. },
+            ) => rrs,
+            _ => Vec::new(),
+        };
 
         // the upstream nameserver follows aliases on its own, and knows
         // nothing of our zones and hosts files: where its answer follows an
